@@ -823,3 +823,38 @@ func commaOkLocals(info *types.Info, body *ast.BlockStmt) map[types.Object]bool 
 	})
 	return out
 }
+
+// AllFalseEdgesExpr: as AllFalseEdges for boolean (non-comparison) conjuncts: the false edge of a condition that is a
+// conjunction whose every conjunct is accepted by pred (so on the edge at least one accepted condition is false and
+// nothing else can have caused the branch).
+func (f *Flow) AllFalseEdgesExpr(pred func(e ast.Expr) bool) map[Edge]bool {
+	out := map[Edge]bool{}
+	for _, b := range f.G.Blocks {
+		cond := f.Cond(b)
+		if !b.Live || cond == nil {
+			continue
+		}
+		var conj []ast.Expr
+		var flat func(e ast.Expr)
+		flat = func(e ast.Expr) {
+			e = ast.Unparen(e)
+			if be, ok := e.(*ast.BinaryExpr); ok && be.Op == token.LAND {
+				flat(be.X)
+				flat(be.Y)
+				return
+			}
+			conj = append(conj, e)
+		}
+		flat(cond)
+		all := len(conj) > 0
+		for _, cj := range conj {
+			if !pred(cj) {
+				all = false
+			}
+		}
+		if all {
+			out[Edge{b, 1}] = true
+		}
+	}
+	return out
+}
